@@ -496,28 +496,13 @@ def impl_sharedattr(d):
 
 
 def sharedattr_verdict(d, impl) -> Tuple[str, Any]:
-    """K_shared_node_roles (finding C03-e, the cross-query face of C01-e): DomainMapping refreshes its falsity flag only when it is
-    a logical operand or `self is self._conditions_root_`, and `_conditions_root_` is a cached_property of the NODE: the role the
-    node has in the query evaluated first is remembered for good.  Prediction: first role 'bare' -> in the comparison query every
-    element with a falsy attribute is dropped; first role 'comparison' -> the bare query no longer filters at all."""
+    """One Attribute node used as a bare condition in one query and as a comparison operand in another.  Until krrood da356f6 the
+    node remembered the role it had in the query evaluated first (finding C03-e, the cross-query face of C01-e: the comparison query
+    dropped falsy-attribute elements, or the bare query stopped filtering).  No class tolerates that any more: every evaluation of
+    the history must equal the isolated result of a fresh query."""
     hist, iso_bare, iso_cmp = impl
     exp = [[iso_bare, iso_cmp][i] for i in d["evals"]]
-    if hist == exp:
-        return "ok", exp
-    amap = dict((i, a) for i, a in d["A"])
-    first = d["evals"][0]
-    all_rows = [[i] for i in _dedup(d["W"][0])]
-    pred = []
-    for i in d["evals"]:
-        if i == first:
-            pred.append([iso_bare, iso_cmp][i])
-        elif i == 1:      # comparison query, the node believes it is the condition root
-            pred.append([r for r in iso_cmp if amap.get(r[0], 0)])
-        else:             # bare query, the node believes it is an operand
-            pred.append(all_rows)
-    if hist == pred and len(set(d["evals"])) == 2:
-        return "known:K_shared_node_roles", exp
-    return "violation", exp
+    return ("ok" if hist == exp else "violation"), exp
 
 
 def extra_expected(d, iso) -> List[Any]:
